@@ -91,18 +91,31 @@ def run(ctx):
             pending.append(({'op': 'model.find_loops', 'ast': astwire.W(fn)},
                             ('mloops', src, [astwire.W(l) for l in loops], None)))
             pending.append(({'op': 'model.variables', 'ast': astwire.W(fn)}, ('vars', src, Variables(fn).vars, None)))
-        # --- statistics
-        try:
+        # --- statistics, as reported by the three places a user gets them from: take_counts itself and the
+        #     `program` field of the results of Analysis.run and LoopAnalysis.run
+        def stats_sources():
             res = Result()
             Analysis.take_counts(ast, res)
-            st = res.program
+            yield 'take_counts', res.program
+            yield 'Analysis.run', Analysis.run(copy.deepcopy(ast), strict=False).program
+            yield 'LoopAnalysis.run', LoopAnalysis.run(copy.deepcopy(ast), strict=False).program
+        try:
             want_fvars = sum(len(Variables(f).vars) for f in fs)
-            if st.n_func != len(fs):
-                ctx.violation({'kind': 'stat', 'field': 'n_func'}, f'n_func={st.n_func} for {len(fs)} function definitions', {'src': src})
-            ctx.extra.setdefault('stats_checked', 0)
-            ctx.extra['stats_checked'] += 1
-            pending.append(({'op': 'spec.count_loops', 'asts': [astwire.W(f) for f in fs]},
-                            ('nloops', src, st.n_loops, None)))
+            want_lvars = sum(len(Variables(l).vars) for f in fs for l in FindLoops(f).loops)
+            for where, st in stats_sources():
+                if st.n_func != len(fs):
+                    ctx.violation({'kind': 'stat', 'field': 'n_func', 'from': where},
+                                  f'{where}: n_func={st.n_func} for {len(fs)} function definitions', {'src': src})
+                if st.n_func_vars != want_fvars:
+                    ctx.violation({'kind': 'stat', 'field': 'n_func_vars', 'from': where},
+                                  f'{where}: n_func_vars={st.n_func_vars}, the functions have {want_fvars} variables', {'src': src})
+                if st.n_loop_vars != want_lvars:
+                    ctx.violation({'kind': 'stat', 'field': 'n_loop_vars', 'from': where},
+                                  f'{where}: n_loop_vars={st.n_loop_vars}, the loops have {want_lvars} variables', {'src': src})
+                ctx.extra.setdefault('stats_checked', 0)
+                ctx.extra['stats_checked'] += 1
+                pending.append(({'op': 'spec.count_loops', 'asts': [astwire.W(f) for f in fs]},
+                                ('nloops', src, st.n_loops, where)))
         except Exception as e:
             ctx.count('take_counts_raised_' + type(e).__name__)
         # --- loop mode: one result per non-empty loop, in order; each equals the loop analysed alone
@@ -205,7 +218,7 @@ def run(ctx):
                 ctx.disagree('model.variables', {'src': src, 'impl': impl, 'model': m})
         elif kind == 'nloops':
             if m != impl:
-                ctx.violation({'kind': 'stat', 'field': 'n_loops'}, f'n_loops={impl}, source has {m} in `{src[:200]}`', {'src': src})
+                ctx.violation({'kind': 'stat', 'field': 'n_loops', 'from': extra}, f'{extra}: n_loops={impl}, source has {m} in `{src[:200]}`', {'src': src})
         elif kind == 'loc':
             ctx.case(('loc', src), nontrivial=('/*' in src or '//' in src), sample=None)
             ctx.count('loc_texts')
